@@ -109,7 +109,7 @@ pub fn curated() -> Vec<&'static str> {
         "@json, @text, (tojson|@base64, (@base64|@base64d))", "[.[]?|@json]|@csv?", "[1,\"a\",null]|@csv, @tsv, @html, @uri, @sh",
         "\"\\(.)-\\(1+2)\"", "\"1 2\"|[splits(\" \")]|map(tonumber)|add", "[.[]?|tostring|ascii_downcase]?",
         "100000000000000000000 + 1, (99999999999999999999 * 99999999999999999999), (9223372036854775807 + 1), (-9223372036854775808 - 1)",
-        "[limit(30; recurse(. * 3))]|last|tostring|length? // 0", "reduce range(1;40) as $i (1; . * $i)", "reduce range(0;70) as $i (1; . * 2) | ., (. % 1000000007), tostring",
+        "[limit(30; recurse(numbers | . * 3))]|last|tostring|length? // 0", "reduce range(1;40) as $i (1; . * $i)", "reduce range(0;70) as $i (1; . * 2) | ., (. % 1000000007), tostring",
         "[12345678901234567890123, 1e1000, 0.1, 1.5, -0.0, 3.0]|map(. + 1), map(tojson), sort",
         "123456789012345678901234567890 | ., -(.), (. % 97), (. - 1), tojson, (tostring|tonumber)",
         "try error(\"x\") catch .", "try (1, error({a:1}), 3) catch .", "[.[]?|try (1/.) catch \"div\"]", "error(null)?", ".a.b.c?", "try error catch .",
